@@ -224,6 +224,7 @@ type c13Run struct {
 	branch []int // number of eligible threads at each round (for exhaustive enumeration)
 	stack  []byte
 	lastBlocked string
+	free   bool // free-running mode (race-detector runs): parking points do not park
 }
 
 func (r *c13Run) mon(sig, why string) {
@@ -246,6 +247,10 @@ func (r *c13Run) self() *c13Thread {
 // returns the fault flag of the release. Calls from any other goroutine (the
 // scheduler's own observation calls) return immediately.
 func (r *c13Run) park(kind string, arg int) bool {
+	if r.free {
+		runtime.Gosched()
+		return false
+	}
 	t := r.self()
 	if t == nil {
 		return false
@@ -879,6 +884,42 @@ func (r *c13Run) afterDone(t *c13Thread, ghost map[int]int) {
 				r.mon("C13:gc-wrong-set", "GarbageCollectWatchesNow stopped watch "+s+" (refs "+fmt.Sprint(op.Refs)+")")
 			}
 		}
+	}
+}
+
+// runFree runs the phases one after the other, the calls of a phase as free-running
+// goroutines (supporting evidence under the race detector only; nothing is compared).
+func (r *c13Run) runFree() {
+	r.free = true
+	phases := map[int][]*c13Thread{}
+	var order []int
+	for _, t := range r.th {
+		if _, ok := phases[t.op.Phase]; !ok {
+			order = append(order, t.op.Phase)
+		}
+		phases[t.op.Phase] = append(phases[t.op.Phase], t)
+	}
+	sort.Ints(order)
+	for _, p := range order {
+		var wg sync.WaitGroup
+		for _, t := range phases[p] {
+			wg.Add(1)
+			t := t
+			go func() {
+				defer wg.Done()
+				id := c13Goid()
+				r.mu.Lock()
+				t.goid = id
+				r.byGoid[id] = t
+				r.mu.Unlock()
+				_ = Guard(func() { t.res = r.exec(t) })
+				r.mu.Lock()
+				delete(r.byGoid, id)
+				t.state = c13Done
+				r.mu.Unlock()
+			}()
+		}
+		wg.Wait()
 	}
 }
 
